@@ -99,6 +99,18 @@ CHECKS = {
             'numeric(c=0) == analytic, x<->y exchange (matrices up to the dof permutation, eigenvalues through lb/freq), similarity '
             'scaling (s, e, q)',
             'no reference model: a defect shared by both descriptions is invisible here (covered by C02-C04)', '3 C14'),
+    'C15': ('Hypothesis-generated refinements and specially orthotropic plates; invariant: Cauchy interlacing under hierarchical '
+            'refinement; differential oracle: closed-form double-sine buckling loads and frequencies (with rotary inertia)',
+            'generated-input search over all four models x flags x laminates x load triples x (m,n) increments for monotonicity of the six '
+            'lowest multipliers/frequencies, and over aspect ratios 0.2..5, bending-stiffness ratios and compression ratios for the '
+            'bounds; convergence asserted once the series resolves the half-waves of the mode',
+            'closed forms use the reference laminate model for D; eigenvalues from dense solvers and from analysis.lb/freq', '3 C15'),
+    'C18': ('Hypothesis-generated shells and load sets; virtual-work oracle against the package own displacement field; dense '
+            'deletion/insertion reference for the partition book-keeping; linear-algebra oracle for static()',
+            'generated-input search over 16 static-capable models, cylinders and cones from every admissible pair of (r1,r2,H,L), point '
+            'forces, axial load (uniform + harmonics), pressure, torque (force/rotation controlled), prescribed shortening, load factor, '
+            'all admissible prescribed-amplitude subsets',
+            'surface integrals by periodic trapezoid x Gauss quadrature; torque-as-point-force matched by a signature predicate', '3 C18'),
     'C19': ('Hypothesis-generated aerodynamic cases; differential oracle: bilinear forms of the piston-theory pressure law from w '
             'operators; metamorphic: flow-y == flow-x on the exchanged panel; dense non-Hermitian reference for Panel.freq',
             'generated-input search over flat / w-only / cylindrical panels, both flow directions, coefficients given directly or '
